@@ -21,7 +21,7 @@ def text_of(case):
 
 def sig(r):
     s = {'text': text_of(r['case'])}
-    for k in ('entry', 'what', 'comments', 'trailing', 'expect', 'observed'):
+    for k in ('entry', 'what', 'comments', 'trailing', 'expect', 'observed', 'mode'):
         if k in r:
             s[k] = r[k]
     if 'limit' in r:
@@ -66,11 +66,13 @@ def run(tier):
                    'one case; token sequences over the 11-token alphabet with up to two of 38 extra tokens (corners of the escaped surrogate-pair range, scalar boundaries, characters '
                    'above U+00FF whose low byte is an ASCII character with a role in the grammar, outside and inside strings); '
                    'x {allow_comments} x {allow_trailing_comma} x max_nesting_depth in {default, depth, depth-1} x 5 char entry points and - for every text that is valid UTF-8 - '
-                   'the same 5 entry points of the wchar_t instantiation (one wchar_t per code point; value narrowed back and compared with the same prediction)')
+                   'the same 5 entry points of the wchar_t instantiation (one wchar_t per code point; value narrowed back and compared with the same prediction); '
+                   'every text additionally under lossless_number, lossless_bignum(false), nan_to_str / inf_to_str / neginf_to_str with the inverse enabled, and all three together (the documented image of '
+                   'the literal changes: exact text tagged bigdec / nearest double or +-infinity / NaN and infinities for the three strings)')
     cov['bounds'] = {k: open(os.path.join(vf.SPEC, v)).read().split('CONSTANTS')[1].split() for k, v in CFG[tier].items()}
     cov['samples'] = vf.sample_lines(g[1][0], 2) + vf.sample_lines(g[2][0], 1)
-    rep.assumptions += ['glibc strtod is the reference for the value of fractional/exponent literals (C04 decides rounding)',
-                        'decode options lossless_number / lossless_bignum / nan and inf string substitution stay at their defaults',
+    rep.assumptions += ['with lossless_bignum off an underflowing real may be read as +-infinity (as documented) or as the nearest double',
+                        'glibc strtod is the reference for the value of fractional/exponent literals (C04 decides rounding)',
                         'texts containing an escape that denotes an unpaired surrogate, and comments after the top-level value when allow_comments is on, are not compared (declared dont-care)']
     return rep.finish(dict(harness='c02'))
 
